@@ -16,7 +16,7 @@ import ast
 import os
 
 from .loader import AnalysisError
-from .values import (K, T, Obj, ListV, TupleV, SetV, DictV, FuncRef, ClassRef,
+from .values import (K, T, Obj, ListV, IterV, TupleV, SetV, DictV, FuncRef, ClassRef,
                      ExtRef, ModRef, AbsFunc, PropertyV, StaticV,
                      ClassMethodV, RegexV, NTupleV, NTClass, same, show)
 
@@ -230,7 +230,10 @@ class Interp:
             'datetime.datetime', 'datetime.timedelta', 'datetime.date',
             'datetime.timezone', 'fractions.Fraction', 'decimal.Decimal',
             'math.isclose', 'encodings.normalize_encoding',
-            'urllib.parse.unquote', 'int.from_bytes'}
+            'urllib.parse.unquote', 'int.from_bytes', 'math.log',
+            'math.log2', 'math.log10', 'math.sqrt', 'math.floor',
+            'math.trunc', 'math.ldexp', 'math.frexp', 'math.fsum',
+            'math.copysign', 'math.isfinite', 'math.isinf', 'math.isnan'}
         self.on_method = None       # hook(term, name, args, kwargs)
         self.stubs = {}             # in-repo qualname -> behaviour
         self.on_yield = None        # hook(interp, value) for generators
@@ -1541,6 +1544,10 @@ class Interp:
     def iterate(self, it):
         """Concrete list of abstract elements, or a bounded symbolic
         unrolling (0..2 elements, explored as a choice)."""
+        if isinstance(it, IterV):
+            out = list(it.items)
+            it.items = []           # used up
+            return out
         if isinstance(it, (ListV, TupleV, SetV)):
             return list(it.items)
         if isinstance(it, DictV):
